@@ -575,6 +575,68 @@ def format_braces(vm, fmt, args, kw):
     return mk_str(out)
 
 
+def m_re_sub(vm, args, kw):
+    """re.sub(pattern, repl, string) for a constant replacement without group references, over symbolic characters."""
+    pattern, repl, s = args[0], args[1], args[2]
+    if not isinstance(s, SStr):
+        return re.sub(*args, **kw)
+    if not isinstance(repl, str) or '\\' in repl or len(args) > 3 or kw:
+        raise Unsupported('re.sub with that replacement / count / flags on a symbolic string')
+    items, ng, names = compile_rx(pattern)
+    atoms = s.a
+    out = []
+    pos = 0
+    n = len(atoms)
+    rep = [ord(c) for c in repl]
+    last_empty_at = -1
+    while pos <= n:
+        res = []
+
+        def done(p, g, start=pos):
+            res.append(p)
+            return True
+        if rx_match(vm, items, 0, atoms, pos, {}, done):
+            end = res[0]
+            if end > pos:
+                out.extend(rep)
+                pos = end
+                continue
+            if last_empty_at != pos:
+                out.extend(rep)           # empty match
+                last_empty_at = pos
+        if pos < n:
+            out.append(atoms[pos])
+        pos += 1
+    return mk_str(out)
+
+
+def m_splitext(vm, args, kw):
+    """posixpath.splitext on a symbolic string (CPython's genericpath._splitext with sep '/', extsep '.')."""
+    p = args[0]
+    if not isinstance(p, SStr):
+        import posixpath
+        return posixpath.splitext(p)
+    a = p.a
+    n = len(a)
+    sep_index = -1
+    for i in range(n - 1, -1, -1):
+        if atom_eq(vm, a[i], 47):
+            sep_index = i
+            break
+    dot_index = -1
+    for i in range(n - 1, -1, -1):
+        if atom_eq(vm, a[i], 46):
+            dot_index = i
+            break
+    if dot_index > sep_index:
+        k = sep_index + 1
+        while k < dot_index:
+            if not atom_eq(vm, a[k], 46):
+                return mk_str(a[:dot_index]), mk_str(a[dot_index:])
+            k += 1
+    return mk_str(a), ''
+
+
 # ------------------------------------------------------------------------- str methods
 def sm_rstrip(vm, o, args, kw):
     chars = args[0] if args else None
@@ -615,6 +677,9 @@ def sm_format(vm, o, args, kw):
 def install(vm):
     from . import models
     vm.models[id(bin)] = m_bin
+    vm.models[id(re.sub)] = m_re_sub
+    import posixpath as _pp
+    vm.models[id(_pp.splitext)] = m_splitext
     vm.models[id(re.search)] = lambda vm_, a, k: m_re_search(vm_, a, k, False)
     vm.models[id(re.match)] = lambda vm_, a, k: m_re_search(vm_, a, k, True)
     for t in (SStr, str):
